@@ -187,4 +187,17 @@ def stripNpL (S : Schema) : List DNode → List DNode
   | n :: ns => stripNp S n :: stripNpL S ns
 end
 
+/-- two equal instances of a keyed list / configuration leaf-list among the siblings (invalid data: happens when a diff is
+applied to a tree it was not made for, or, without `LYD_DIFF_DEFAULTS`, next to default instances).  Which of the two a
+later lookup returns depends on libyang's children hash table, so such results are only reported as `DupInstances`. -/
+def hasDupSibs (S : Schema) : List DNode → Bool
+  | [] => false
+  | x :: xs =>
+    ((S.isKind x.sid .list || S.isKind x.sid .leaflist) && !S.isDupInst x.sid && xs.any (fun y => sameInst S x y))
+      || hasDupSibs S xs
+
+def hasDupInst (S : Schema) : (fuel : Nat) → List DNode → Bool
+  | 0, _ => false
+  | fuel + 1, f => hasDupSibs S f || f.any (fun n => hasDupInst S fuel n.kids)
+
 end LyModel.Diff
